@@ -197,6 +197,34 @@ def gen_cases(rng, tier):
     # cross-dimension stream: every dimension of the SP model varied at once
     for _ in range(150 if tier == "quick" else 4000):
         yield C.random_full(rng, PROP)
+    for _ in range(60 if tier == "quick" else 1500):
+        yield C.via_entry(C.random_full(rng, PROP), "response_factory")
+
+    # subject identified by an <EncryptedID> (get_subject): entry point x carrier x decryptable x signature, crossed with
+    # the correlation dimension (the identifier's form must not displace the InResponseTo tests)
+    def vary_correlation(c, rng):
+        r_irt, sc_irt = rng.choice(list(IRT.values())), rng.choice(list(IRT.values()))
+        c["resp"]["in_response_to"] = r_irt
+        c["resp"]["assertions"][0]["subject"]["confs"][0]["data"]["irt"] = sc_irt
+        c["cfg"]["allow_unsolicited"] = rng.random() < 0.3
+        c["env"]["outstanding"] = rng.choice([[], [["req-1", "/came/1"]], [["req-0", "/came/0"], ["req-1", "/came/1"], ["req-2", "/came/2"]]])
+        c["tag"] += "/irt:%s/%s" % (r_irt, sc_irt)
+
+    yield from C.encrypted_id_cases(rng, PROP, tier, vary_correlation)
+
+    # two assertions sharing one (sender-chosen) ID, one in clear and one encrypted, one of them not an answer to the
+    # outstanding request / of the wrong shape
+    def spoil_correlation(a, rng):
+        k = rng.choice(["irt-other", "irt-unknown", "irt-absent", "authn-0", "authn-2"])
+        if k.startswith("irt"):
+            a["subject"]["confs"][0]["data"]["irt"] = {"irt-other": "req-2", "irt-unknown": "req-unknown", "irt-absent": None}[k]
+        else:
+            a["authn"] = [dict(a["authn"][0], session_index="s%d" % j) for j in range(0 if k == "authn-0" else 2)]
+        return k
+
+    for c in C.dup_id_cases(rng, PROP, tier, spoil_correlation):
+        c["env"]["outstanding"] = [["req-1", "/came/1"], ["req-2", "/came/2"]]
+        yield c
     # signed carriers (default configuration) of a few correlation cells
     for r_irt, sc in itertools.product(IRT, IRT):
         c = corr_case(r_irt, [sc], False, "many")
